@@ -81,7 +81,11 @@ func runH3E2E(w *bufio.Writer, seed uint64, n int, args []string) {
 var h3ePanicSite = regexp.MustCompile(`uquic/http3\.([A-Za-z0-9_().*]+)\(`)
 
 func h3eRunChild(w *bufio.Writer, seed uint64, n int, mode string) {
-	cmd := exec.Command(os.Args[0], "h3e2e", strconv.FormatUint(seed, 10), strconv.Itoa(n), mode)
+	h3eRunChildOf(w, "h3e2e", seed, n, mode)
+}
+
+func h3eRunChildOf(w *bufio.Writer, unit string, seed uint64, n int, mode string) {
+	cmd := exec.Command(os.Args[0], unit, strconv.FormatUint(seed, 10), strconv.Itoa(n), mode)
 	cmd.Env = os.Environ()
 	var stderr bytes.Buffer
 	cmd.Stderr = &stderr
@@ -469,6 +473,7 @@ type h3eWorld struct {
 	seen  map[int]*h3eSeen
 	w     *bufio.Writer
 	wmu   sync.Mutex
+	nDone int // exchanges whose response was read and checked
 }
 
 func (wd *h3eWorld) fail(key, desc, detail string) {
@@ -582,7 +587,11 @@ func h3eSum(b []byte) string { h := sha256.Sum256(b); return fmt.Sprintf("%d:%x"
 
 // one exchange through the real client; the reference check of both directions.
 func (wd *h3eWorld) exchange(tr *http3.Transport, base string, s *h3eSpec, lossy bool) {
-	tag := fmt.Sprintf("lossy=%v %s", lossy, s)
+	wd.exchangeTagged(tr, base, s, fmt.Sprintf("lossy=%v", lossy))
+}
+
+func (wd *h3eWorld) exchangeTagged(tr *http3.Transport, base string, s *h3eSpec, env string) {
+	tag := fmt.Sprintf("%s %s", env, s)
 	url := fmt.Sprintf("%s/e/%d", base, s.id)
 	if s.query != "" {
 		url += "?" + s.query
@@ -598,7 +607,7 @@ func (wd *h3eWorld) exchange(tr *http3.Transport, base string, s *h3eSpec, lossy
 		}
 		body = cr
 	}
-	ctx, cancel := context.WithTimeout(context.Background(), 60*time.Second)
+	ctx, cancel := context.WithTimeout(context.Background(), 120*time.Second)
 	defer cancel()
 	var got1xx []int
 	var got1xxLink string
@@ -631,6 +640,9 @@ func (wd *h3eWorld) exchange(tr *http3.Transport, base string, s *h3eSpec, lossy
 	}
 	rb, rerr := io.ReadAll(res.Body)
 	res.Body.Close()
+	wd.mu.Lock()
+	wd.nDone++
+	wd.mu.Unlock()
 	// ---- what the handler saw ----
 	wd.mu.Lock()
 	seen := wd.seen[s.id]
